@@ -670,10 +670,25 @@ func (f *indexFetcher) tryCreateOrderedIndexIterator() (indexIterator, error) {
 		if err != nil {
 			return nil, err
 		}
-		iter := f.newPrefixBaseMatchIterator(key, nil, f.execInfo).Reverse(reverse)
+		var iter indexIterator = f.newPrefixBaseMatchIterator(key, nil, f.execInfo).Reverse(reverse)
+		if f.indexHasArrayOrJSONField() {
+			iter = &memorizingIndexIterator{inner: iter}
+		}
 		return iter, nil
 	}
 	return nil, nil
+}
+
+// indexHasArrayOrJSONField returns true if the index holds several entries per document, which is
+// the case when one of its fields is an array or a JSON value. Documents fetched through such an index
+// must be de-duplicated also when the conditions (or the ordering) only involve its other fields.
+func (f *indexFetcher) indexHasArrayOrJSONField() bool {
+	for i := range f.indexedFields {
+		if f.indexedFields[i].Kind.IsArray() || f.indexedFields[i].Kind == client.FieldKind_NILLABLE_JSON {
+			return true
+		}
+	}
+	return false
 }
 
 func (f *indexFetcher) createIndexIterator() (indexIterator, error) {
@@ -732,7 +747,7 @@ func (f *indexFetcher) createIndexIterator() (indexIterator, error) {
 		return nil, NewErrInvalidFilterOperator(fieldConditions[0].op)
 	}
 
-	if doConditionsHaveArrayOrJSON(fieldConditions) {
+	if doConditionsHaveArrayOrJSON(fieldConditions) || f.indexHasArrayOrJSONField() {
 		iter = &memorizingIndexIterator{inner: iter}
 	}
 
